@@ -201,9 +201,12 @@ Step ==
             LET mm == SkipTo(m)
                 r == RMessages(mm.ob)
                 M == r.msgs
-                expectErr == mm.badfrag \/ mm.fault
+                partial == mm.inb # << >>       \* the stream ended inside a (multi-packet) message
+                expectErr == mm.badfrag \/ mm.fault \/ partial
                 vres == IF e.result = "panic" THEN {V("C20", l, "run_on panicked at " \o e.site)}
                         ELSE IF e.result \in {"livelock", "timeout"} THEN {V("C20", l, "run_on did not terminate")}
+                        ELSE IF partial /\ ~mm.badfrag /\ ~mm.fault /\ e.result = "ok"
+                             THEN {V("C19", l, "run_on returned Ok although the stream ended inside a multi-packet message (" \o ToString(RLen(mm.inb)) \o " bytes pending)")}
                         ELSE IF expectErr /\ e.result = "ok" THEN {V("C20", l, "out-of-order fragments accepted silently")}
                         ELSE IF ~expectErr /\ e.result # "ok" THEN {V("C19", l, "run_on returned an error on a fault-free conformant conversation")}
                         ELSE {}
